@@ -5,6 +5,7 @@ import (
 	"go/token"
 	"go/types"
 	"path/filepath"
+	"sort"
 	"strings"
 
 	"golang.org/x/tools/go/ssa"
@@ -82,6 +83,37 @@ func ruleJ1(c *Ctx, inj, adj *Module) {
 		}
 		return "?"
 	}
+	unrolled := false
+	if len(cands) == 0 {
+		// no candidate list: the lookups written out one after the other, each on the miss path of the one before
+		var lks []*ssa.Lookup
+		for _, r := range *ann.Referrers() {
+			if lk, ok := r.(*ssa.Lookup); ok && lk.X == ssa.Value(ann) {
+				lks = append(lks, lk)
+			}
+		}
+		sort.Slice(lks, func(i, j int) bool { return domInstr(lks[i], lks[j]) })
+		unrolled = len(lks) > 0
+		for i, lk := range lks {
+			if i > 0 {
+				// on the miss branch of the previous lookup
+				miss := false
+				for _, cd := range controls(lk.Block()) {
+					cd = normCond(cd)
+					if ex, ok := cd.V.(*ssa.Extract); ok && ex.Index == 1 && ex.Tuple == ssa.Value(lks[i-1]) && !cd.Pol {
+						miss = true
+					}
+				}
+				if !miss {
+					unrolled = false
+				}
+			}
+			cands = append(cands, lk.Index)
+		}
+		if !unrolled {
+			cands = nil
+		}
+	}
 	var shapes []string
 	for _, cd := range cands {
 		shapes = append(shapes, shape(cd))
@@ -115,7 +147,7 @@ func ruleJ1(c *Ctx, inj, adj *Module) {
 	for _, r := range *ann.Referrers() {
 		if lk, ok := r.(*ssa.Lookup); ok {
 			coll, _ := rangeOf(lk.Index)
-			if coll == nil {
+			if coll == nil && !unrolled {
 				bad = "a lookup key is not an element of the candidate list"
 			}
 			// hit returns
@@ -321,26 +353,64 @@ func ruleJ3(c *Ctx, adj *Module) {
 			pfx, okP := constString(bo.X)
 			typ := bo.Y
 			// typ = TrimPrefix(ToUpper(u.Type), prefix)
-			okNorm := false
-			if tp, ok := typ.(*ssa.Call); ok {
-				if g := adj.callee(tp.Common()); g != nil && g.String() == "strings.TrimPrefix" {
-					p2, _ := constString(tp.Call.Args[1])
-					if up, ok := tp.Call.Args[0].(*ssa.Call); ok {
-						if h := adj.callee(up.Common()); h != nil && h.String() == "strings.ToUpper" && p2 == pfx {
-							okNorm = true
+			isNorm := func(v ssa.Value) bool {
+				if tp, ok := v.(*ssa.Call); ok {
+					if g := adj.callee(tp.Common()); g != nil && g.String() == "strings.TrimPrefix" {
+						p2, _ := constString(tp.Call.Args[1])
+						if up, ok := tp.Call.Args[0].(*ssa.Call); ok {
+							if h := adj.callee(up.Common()); h != nil && h.String() == "strings.ToUpper" && p2 == pfx {
+								return true
+							}
 						}
 					}
 				}
+				return false
 			}
-			// validated: the store is controlled by the ok of a lookup of typ in the valid table
+			// v is the ok of a lookup of name in the table of valid names
+			isValidOK := func(v, name ssa.Value) bool {
+				if ex, ok := v.(*ssa.Extract); ok && ex.Index == 1 {
+					if lk, ok := ex.Tuple.(*ssa.Lookup); ok && lk.Index == name {
+						if u, ok := lk.X.(*ssa.UnOp); ok {
+							if g, ok := u.X.(*ssa.Global); ok && g.Name() == "valid" {
+								return true
+							}
+						}
+					}
+				}
+				return false
+			}
+			okNorm := isNorm(typ)
 			okValid := false
 			for _, cd := range controls(b) {
 				cd = normCond(cd)
-				if ex, ok := cd.V.(*ssa.Extract); ok && ex.Index == 1 && cd.Pol {
-					if lk, ok := ex.Tuple.(*ssa.Lookup); ok && lk.Index == typ {
-						if u, ok := lk.X.(*ssa.UnOp); ok {
-							if g, ok := u.X.(*ssa.Global); ok && g.Name() == "valid" {
-								okValid = true
+				if cd.Pol && isValidOK(cd.V, typ) {
+					okValid = true
+				}
+			}
+			// both delegated to a helper returning (normalised name, found in the table)
+			if ex, ok := typ.(*ssa.Extract); ok && ex.Index == 0 && !okNorm {
+				if hc, ok := ex.Tuple.(*ssa.Call); ok {
+					if h := adj.callee(hc.Common()); h != nil && len(h.Blocks) > 0 && h.Pkg != nil && h.Pkg.Pkg.Path() == pkgAdjuster && h.Signature.Results().Len() == 2 {
+						hn, hv := true, true
+						for _, r := range returnsOf(h) {
+							for _, v := range returnValues(r, 0) {
+								if !isNorm(v) {
+									hn = false
+								}
+								for _, v1 := range returnValues(r, 1) {
+									if !isValidOK(v1, v) {
+										hv = false
+									}
+								}
+							}
+						}
+						okNorm = hn
+						if hv {
+							for _, cd := range controls(b) {
+								cd = normCond(cd)
+								if e1, ok := cd.V.(*ssa.Extract); ok && e1.Index == 1 && e1.Tuple == ssa.Value(hc) && cd.Pol {
+									okValid = true
+								}
 							}
 						}
 					}
